@@ -330,6 +330,23 @@ def rejections(v, case, cand, reduced, scratch):
             v.bad(f"accepted:{kind}", f"fixed_indices={fixed} ({kind}) was accepted", **w)
         elif calls:
             v.bad(f"rejected-late:{kind}", f"{len(calls)} call(s) before rejecting fixed_indices={fixed}", **w)
+        # the same request made through create_learners
+        if any(f["mapspec"] for f in case["funcs"]):
+            from pipefunc.map.adaptive import create_learners
+
+            probes.log_clear(log)
+            err = None
+            try:
+                with quiet():
+                    create_learners(pipeline, inputs, os.path.join(scratch, "rej-l"), mapgen.internal_shapes_arg(case), storage="file_array",
+                                    fixed_indices=dict(fixed))
+            except Exception as e:  # noqa: BLE001
+                err = e
+            v.count("rejection_requests_through_create_learners")
+            if err is None:
+                v.bad(f"accepted:{kind}/create_learners", f"create_learners(fixed_indices={fixed}) ({kind}) was accepted", **w)
+            elif probes.log_read(log):
+                v.bad(f"rejected-late:{kind}/create_learners", f"user code ran before create_learners rejected fixed_indices={fixed}", **w)
 
 
 # ------------------------------------------------------------------------------- learners
